@@ -282,9 +282,12 @@ def check_segments_eval(chk) -> bool:
                 o.is_connected = lambda other, _r=r: (_r, other.key) in linkset
                 return o
 
-            me = Obj("self", residues=[mk(r) for r in res])
+            from sa.fragment import Instance
+
             env: Dict[str, Any] = {}
             env.update(module_callables(repo, T2, outer=env))
+            # an interpreted Structure whose residues are given: helpers the method calls on `self` are the class's own
+            me = Instance(repo, T2, "Structure", env, residues=[mk(r) for r in res])
             call = func_callable(repo, T2, fi.node, env, max_steps=20000)
             try:
                 got = call(me)
